@@ -59,7 +59,15 @@ def walk(
 ) -> Generator[FlattenedInstance, None, None]:
     if conns is None:
         conns = {**m.signals, **m.ports}
+    for name in list(m.signals) + list(m.ports):
+        if ":" in name:
+            # Also when it is not connected to anything here: it would be taken for a flattened internal net.
+            msg = f"Cannot flatten Signal `{name}` in Module `{m.name}`: its name includes the path-separator `:`"
+            raise ValueError(msg)
     for inst in m.instances.values():
+        if not inst.name:
+            msg = f"Cannot flatten an Instance without a name in Module `{m.name}`"
+            raise ValueError(msg)
         if ":" in inst.name:
             # Flattened names are ":"-joined hierarchical paths. Names including the separator would be ambiguous.
             msg = f"Cannot flatten Instance `{inst.name}` in Module `{m.name}`: its name includes the path-separator `:`"
